@@ -27,7 +27,7 @@ JudgeRate(e) ==
   ELSE IF BI(e.val) # RateAtL(e.r, e.a, e.j, BI(e.T)) THEN "rate.end_of_move" ELSE "ok"
 
 JudgePeak(e) ==
-  IF ~DomainOK(e.r, e.a, e.j, BI(e.T)) THEN "skip"
+  IF ~DomainPeak(e.r, e.a, e.j, BI(e.T)) THEN "skip"
   ELSE LET K == BI(e.T)
            m == BI(e.val)
            pk == PeakL(e.r, e.a, e.j, K) IN
